@@ -105,7 +105,12 @@ def all (input : Bytes) : Res (List Paragraph) :=
 def foldValue (v : Bytes) : Bytes :=
   match Str.split [10] (Str.trimSuffix v [10]) with
   | [] => []
-  | first :: rest => Str.joinWith [10] (first :: rest.map (fun l => 32 :: (if l.isEmpty then [46] else l)))
+  | first :: rest =>
+    -- a first line starting with a blank can only be kept on a continuation line
+    let ls := if Str.hasPrefix first [32] ∨ Str.hasPrefix first [9] then [] :: first :: rest else first :: rest
+    match ls with
+    | [] => []
+    | f :: r => Str.joinWith [10] (f :: r.map (fun l => 32 :: (if l.isEmpty then [46] else l)))
 
 /-- `Paragraph.WriteTo` -/
 def Paragraph.write (p : Paragraph) : Bytes :=
